@@ -91,6 +91,35 @@ func Harness_C20layout(arg int) {
 	c20Compare(text, "layout")
 }
 
+// Harness_C20term: the end of a rule / of the initializer written with symbolic layout in front of a semicolon or
+// of the end of the line (as Harness_C03term); whatever of it the bootstrap front end accepts, the pigeon front end
+// must accept with the same AST.
+func Harness_C20term(arg int) {
+	ci, si := arg/c20MaxTerms, arg%c20MaxTerms
+	cs := c20Term[ci]
+	symAssume(si < len(cs.seps))
+	off := cs.seps[si]
+	hole := symBytes("h", c20HoleLen)
+	semi := symBool("semicolon")
+	var ins []byte
+	if semi {
+		for _, b := range hole {
+			symAssume(symInSet(b, " \t\r\n"))
+		}
+		ins = append(append([]byte{}, hole...), ';', '\n')
+	} else {
+		for _, b := range hole {
+			symAssume(symInSet(b, " \t\r"))
+		}
+		ins = append(append([]byte{}, hole...), '\n')
+	}
+	text := append([]byte{}, cs.text[:off]...)
+	text = append(text, ins...)
+	text = append(text, cs.text[off+2:]...)
+	symNote(cs.name)
+	c20Compare(text, "rule terminator")
+}
+
 // Harness_C20escape: a valid escape (per the reference decoder of C03) in a
 // double- or single-quoted literal.
 func Harness_C20escape(arg int) {
